@@ -7,12 +7,20 @@
 //	(c) the coverage built for font matching contains r iff Lookup(r) is ok, and its script set is
 //	    exactly { LookupScript(r) : Lookup(r) ok } (Unknown included: the rune-by-rune path of
 //	    newCoveragesFromCmap inserts LookupScript(r) for every rune, and scriptsFromRanges inserts
-//	    language.Unknown explicitly, so Unknown is a member like any other script);
-//	(d) RuneSet behaves as a set (state machine in runeset_test.go).
+//	    language.Unknown explicitly, so Unknown is a member like any other script); for corpus
+//	    files the footprint recorded by the scanning path (newFootprintFromLoader) must be the
+//	    coverage of the face font.ParseTTC loads;
+//	(d) RuneSet behaves as a set, and RuneSet/ScriptSet/LangSet survive serialisation
+//	    (runeset_test.go).
 //
-// The laws are evaluated by checkCmap, which returns every disagreement as a classified
-// discrepancy; judge() then removes the ones matched by a listed known finding (structural
-// matchers below) and fails on the first remaining one.
+// checkCmap evaluates (a)-(c) for one cmap and classifies every disagreement; each one is passed
+// through the structural matchers of the listed known findings (matcher.excuses) and only the
+// unexplained ones are kept; judge() adds the script-set verdict and returns the first unexplained
+// disagreement, which fails the case.
+//
+// Files: c11_test.go (laws, matchers, corpus enumerator, replay), synth_test.go (binary cmap
+// serialisers written from the OpenType specification, rapid generator, synthetic property),
+// runeset_test.go (RuneSet state machine, ScriptSet/LangSet round trips).
 package c11
 
 import (
@@ -40,7 +48,7 @@ const (
 	nRunes   = maxRune + 1
 	nPages   = nRunes >> 8
 	iterCap  = nRunes + 0x10000 // each rune at most once: no lawful Iter yields more pairs for our inputs
-	maxDiscs = 6         // discrepancies kept per class (counts are exact)
+	maxDiscs = 6                // discrepancies kept per class (counts are exact)
 )
 
 func u(r rune) string { return fmt.Sprintf("U+%04X", uint32(r)) }
@@ -56,11 +64,11 @@ func guard(f func()) (p any) {
 
 type bitset []uint64
 
-func newBitset() bitset           { return make(bitset, (nRunes+63)/64) }
-func (b bitset) has(r rune) bool  { return b[uint32(r)>>6]&(1<<(uint32(r)&63)) != 0 }
-func (b bitset) set(r rune)       { b[uint32(r)>>6] |= 1 << (uint32(r) & 63) }
-func (b bitset) clear()           { clear(b) }
-func inRange(r rune) bool         { return r >= 0 && r <= maxRune }
+func newBitset() bitset          { return make(bitset, (nRunes+63)/64) }
+func (b bitset) has(r rune) bool { return b[uint32(r)>>6]&(1<<(uint32(r)&63)) != 0 }
+func (b bitset) set(r rune)      { b[uint32(r)>>6] |= 1 << (uint32(r) & 63) }
+func (b bitset) clear()          { clear(b) }
+func inRange(r rune) bool        { return r >= 0 && r <= maxRune }
 func (b bitset) setRange(lo, hi rune) { // both included, both in range
 	for r := lo; r <= hi; r++ {
 		if r&63 == 0 && r+63 <= hi {
@@ -100,15 +108,15 @@ func getScratch() *scratch {
 // Classes of disagreement between the four views of a cmap.
 const (
 	dPanic         = "panic"
-	dIterRunaway   = "iter-runaway"    // Iter does not terminate within iterCap pairs
+	dIterRunaway   = "iter-runaway"     // Iter does not terminate within iterCap pairs
 	dCovRunaway    = "coverage-runaway" // the coverage is built by walking that same Iter (not evaluated)
-	dIterDup       = "iter-dup"        // Iter yields a rune twice
-	dIterNotLookup = "iter-not-lookup" // Iter yields (r,g) but Lookup(r) is not ok
-	dIterGlyph     = "iter-glyph"      // Iter yields (r,g), Lookup(r) = (g',true), g != g'
-	dLookupNotIter = "lookup-not-iter" // Lookup(r) ok but Iter never yields r
-	dRangesExtra   = "ranges-extra"    // RuneRanges contains r, Lookup(r) not ok
-	dRangesMissing = "ranges-missing"  // Lookup(r) ok, RuneRanges does not contain r
-	dCovExtra      = "coverage-extra"  // coverage contains r, Lookup(r) not ok
+	dIterDup       = "iter-dup"         // Iter yields a rune twice
+	dIterNotLookup = "iter-not-lookup"  // Iter yields (r,g) but Lookup(r) is not ok
+	dIterGlyph     = "iter-glyph"       // Iter yields (r,g), Lookup(r) = (g',true), g != g'
+	dLookupNotIter = "lookup-not-iter"  // Lookup(r) ok but Iter never yields r
+	dRangesExtra   = "ranges-extra"     // RuneRanges contains r, Lookup(r) not ok
+	dRangesMissing = "ranges-missing"   // Lookup(r) ok, RuneRanges does not contain r
+	dCovExtra      = "coverage-extra"   // coverage contains r, Lookup(r) not ok
 	dCovMissing    = "coverage-missing"
 	dScriptExtra   = "script-extra"   // script in the ScriptSet, no covered rune has it
 	dScriptMissing = "script-missing" // a covered rune has the script, ScriptSet lacks it
@@ -173,7 +181,7 @@ func innerCmap(cm font.Cmap) (font.Cmap, bool) {
 	return cm, false
 }
 
-// universe tells which pages (256 runes each) are evaluated rune by rune. nil = every page
+// universe tells which pages (256 runes each) are evaluated rune by rune; all = every page
 // (exhaustive over all 0x110000 code points).
 type universe struct {
 	all  bool
@@ -580,10 +588,10 @@ func reachesLastScriptRange() bool {
 // ---- corpus enumerator -------------------------------------------------------------------------
 
 type corpusCase struct {
-	File  string `json:"file"`
-	Index int    `json:"index"`
-	Type  string `json:"cmap_type,omitempty"`
-	Disc  *disc  `json:"discrepancy,omitempty"`
+	File  string         `json:"file"`
+	Index int            `json:"index"`
+	Type  string         `json:"cmap_type,omitempty"`
+	Disc  *disc          `json:"discrepancy,omitempty"`
 	Count map[string]int `json:"discrepancy_counts,omitempty"`
 }
 
